@@ -418,7 +418,7 @@ def prove_chain(src_root, ex: Explorer):
         it.loop_specs[(f'{NAMING}:chain_strategies', 0)] = loop
         it.call(func(it, NAMING, 'chain_strategies'), [[s], sstr(ctx, 'remote_path'), Sym(D, 'str')], {})
         if sname == 'NumberDuplicateStrategy':
-            ctx.prove('C09.chain.checks-current-location', len(should_args) == 1 and z3.eq(z3str(should_args[0][0]), z3str(path)) and should_args[0][1] is fn,
+            ctx.prove('C09.chain.checks-current-location', all(z3.eq(z3str(sa[0]), z3str(path)) and sa[1] is fn for sa in should_args),
                       'should_be_applied must be asked about the directory and name chosen SO FAR, not about the initial download directory')
         p2, f2 = z3str(state['path']), z3str(state['filename'])
         # definitional instance of REL: appending "/" + plain component keeps it
